@@ -2,7 +2,7 @@ CONSTANTS
  MaxLen = 2
  GridArgs = "full"
  Deep = FALSE
- GraphIdx = {1, 3, 7}
+ GraphIdx = {1, 3, 7, 8}
 SPECIFICATION Spec
 INVARIANT AlwaysUp
 INVARIANT EmitReq
